@@ -8,6 +8,7 @@ import (
 	"io"
 	"net"
 	"net/http"
+	"sort"
 	"strings"
 	"time"
 )
@@ -34,6 +35,14 @@ func wireBytes(q rreq) []byte {
 	fmt.Fprintf(&sb, "%s %s HTTP/1.1\r\nHost: verif\r\n", q.Method, q.uri())
 	if b != nil {
 		fmt.Fprintf(&sb, "Content-Type: application/json\r\nContent-Length: %d\r\n", len(b))
+	}
+	var hk []string
+	for k := range q.Headers {
+		hk = append(hk, k)
+	}
+	sort.Strings(hk)
+	for _, k := range hk {
+		fmt.Fprintf(&sb, "%s: %s\r\n", k, q.Headers[k])
 	}
 	sb.WriteString("\r\n")
 	return append([]byte(sb.String()), b...)
